@@ -119,10 +119,12 @@ SeekTarget(d) == IF "SeekOtherStream" \in d
                  ELSE IDTokPos + 3
 
 \* ------------------------------------------------------------------ initial states
-InitCase == /\ B \in BufSizes /\ dk \in DictKinds /\ style \in Styles /\ foll \in Followers /\ cut \in Cuts /\ dev \in DevChoices
+\* (the prefix tokens depend on the dictionary spelling only: they are computed once per spelling, before the rest is enumerated)
+InitCase == /\ dk \in DictKinds /\ ptoks = RefOut(Head1, {})
+            /\ B \in BufSizes /\ style \in Styles /\ foll \in Followers /\ cut \in Cuts /\ dev \in DevChoices
             /\ \E n \in 0..MaxLen : data \in [1..n -> Alphabet]
             /\ CutOK /\ (IsA85Kind(dk) => style = "eol")
-            /\ C = Content /\ cp = CutAt /\ ptoks = RefOut(Head1, {})
+            /\ C = Content /\ cp = CutAt
 Init == /\ InitCase
         /\ img = <<>> /\ rest = <<>> /\ acc = <<>> /\ mi = 0
         /\ IF FastDict
